@@ -53,6 +53,9 @@ TRICKY_SAFE = [
     "", "null", "Null", "yes", "no", "true", "1", "1.5", "~", "a: b", "- x", "#c", "k: [1, 2]", "{x}", "{0}", "[y]",
     "%d", "&a", "*a", "!t", "|", ">", "@x", "`x`", " lead", "trail ", "a  b", "2020-01-01", "0x1F", "1e3", "=", "?",
     "é", "日本", "ünï", "naïve café", "Timestamp", "a,b", "None", "True", "a;b", "$x", "x'y",
+    # characters a serialiser may normalise when written unescaped: NEL / LS / PS line breaks, BOM, tab, CR, DEL,
+    # no-break space, an astral code point
+    "a\u0085b", "a\u2028b", "\u2029", "\ufeffx", "a\tb", "a\rb", "\x7f", "\u00a0", "\U0001f600", "x\u0085",
 ]
 SAFE_ALPHABET = "abcxyzAZ019 _-:#.,/()é日"
 # characters the script emitter must escape (title/description/name literals are emitted inside "..."; column
